@@ -109,6 +109,9 @@ class ModelObj(SymVal):
                     fi = source.of_function(v)
                     self.inlined[fi.key] = fi
                     return BoundSource(fi, v, c, self)
+                from pyvc.interp import private_helper as _ph
+                _ok, _v = _ph(it, self.cls, name, self, getattr(self, 'inlined', None))
+                if _ok: return _v
                 raise Outside(f'Model.{name} (no contract)')
         raise PyExc(AttributeError, (name,))
     def sym_truth(self, it): return True
